@@ -253,7 +253,9 @@ fn update_best_com(
     resolution: f64,
     directed: bool,
 ) {
-    for (nbr_com, wt) in weights2com {
+    // candidate communities are visited in a fixed order so that ties between equal gains
+    // are broken the same way on every call (a `HashMap` iterates in a per-instance order)
+    for (nbr_com, wt) in weights2com.into_iter().sorted_by_key(|(com, _)| *com) {
         let gain = match directed {
             true => {
                 wt - resolution
